@@ -53,7 +53,7 @@ func runC01(r *hk.Run) {
 	r.Header = "From ReqV Require Import Model.C01Run."
 	r.CaseType = "c01_case"
 	r.CheckFn = "c01_check"
-	r.ShardSize = 120
+	r.ShardSize = 150
 	r.Rule = "values drawn from an injection alphabet (reserved bytes, %, braces, dot segments, ?, #, CR/LF, NUL, non-UTF-8, blanks, long, empty); URL templates from a token grammar (literal / pre-escaped / must-be-escaped text and {holes}), parameter and query maps at client and request level with overlapping keys. Non-trivial: a value or key contains a byte outside [A-Za-z0-9], or both levels set the same key. Distinct by canonical scenario text."
 	rng := hk.NewRand(r.Seed)
 
